@@ -701,6 +701,43 @@ func (w *ioWorld) qReadAt(name string, off, n int) string {
 	return fmt.Sprintf("data:%s:%s", ioDatS(buf[:k]), errClass(err))
 }
 
+// qMixed: on ONE handle, a sequential Read of k bytes, positional reads at and past the end (which fail
+// with io.EOF), then the rest read sequentially: the positional reads must not move the offset, so the
+// concatenation is what ReadFile yields and Seek(0, SeekCurrent) reports k in between.
+func (w *ioWorld) qMixed(name string, k int) {
+	f, e, _ := w.file(name)
+	if f == nil {
+		return
+	}
+	defer f.Close()
+	ra, ok := f.(io.ReaderAt)
+	if !ok || e == nil {
+		return
+	}
+	size := len(e.data)
+	head := make([]byte, k)
+	n, _ := io.ReadFull(f, head)
+	head = head[:n]
+	for _, off := range []int{size, size + 3, max(size-1, 0)} {
+		buf := make([]byte, 2)
+		m, err := ra.ReadAt(buf, int64(off))
+		if m < 2 && err == nil {
+			w.fail("readat:short-without-error", "%q ReadAt(2, %d) after Read(%d) = %d, nil", name, off, k, m)
+		}
+	}
+	if sk, ok := f.(io.Seeker); ok {
+		if pos, err := sk.Seek(0, io.SeekCurrent); err == nil && pos != int64(n) {
+			w.fail("readat:moved-offset", "%q after Read(%d) and positional reads at the end: offset %d, want %d", name, k, pos, n)
+		}
+	}
+	rest, err := io.ReadAll(f)
+	if err != nil {
+		w.fail("read:end", "%q ReadAll after positional reads: %v", name, err)
+	} else if string(head)+string(rest) != string(e.data) {
+		w.fail("readat:moved-offset", "%q Read(%d)+positional reads+ReadAll = %s, want %s", name, k, ioDatS(append(head, rest...)), ioDatS(e.data))
+	}
+}
+
 func (w *ioWorld) qSeek(name string, pre, off, whence, n int) string {
 	f, e, er := w.file(name)
 	if f == nil {
@@ -1194,6 +1231,11 @@ func (c *Ctx) ioCase(id, desc, enc string, setup, qs []string) {
 			w.qFstest()
 			continue
 		}
+		if toks[0] == "mixed" { // oracle only, like fstest: no model line
+			k, _ := strconv.Atoi(toks[2])
+			w.qMixed(string(unhx(toks[1])), k)
+			continue
+		}
 		res := w.exec(toks)
 		c.Impl("%s#%d %s", id, i, res)
 		if strings.HasPrefix(res, "err:") {
@@ -1433,6 +1475,7 @@ func ioQueries(r *Rng, vis ioVis, thorough bool) []string {
 		add("readat %s 0 %d", h(p), size+1)
 		add("readat %s %d 1", h(p), size)
 		add("readat %s %d 2", h(p), size+3)
+		add("mixed %s %d", h(p), r.Range(0, size))
 		if size > 1 {
 			add("readat %s %d %d", h(p), r.Range(1, size-1), r.Range(1, size))
 		}
